@@ -2,6 +2,7 @@
    Statements only; proofs in Move/MoveProofs.v. Quantified over every row of the regenerated table,
    both ASU conventions, every hkl, and every symmetry-consistent phase function on the sphere. *)
 From GV Require Import Sym.AsuDefs Sym.AsuProofs Sym.AsuLift Sym.AsuSpec Sym.OpProofs Move.Move Move.MoveProofs Move.Expand Move.ExpandProofs.
+From GV Require Import Sym.OpProofs Move.Reindex.
 Local Open Scope Z_scope.
 
 (* the algebraic heart: phase transport composes, h.t1 + (hR1).t2 = h.(t1 + R1 t2) *)
@@ -79,3 +80,36 @@ Proof. vm_compute. reflexivity. Qed.
 
 (* Not proved here (decided by oracles on the implementation only; see DESIGN.md):
    Hendrickson-Lattman coefficient rotation, reindexing coherence. *)
+
+(* ------------------------------------------------------------------------------------------------------------
+   Re-indexing (Mtz::reindex): h' = h P, g' = P^-1 g P computed as GroupOps::change_basis_impl does
+   (wrap(combine(combine(P^-1, g), P))), in the library's integer arithmetic; the divisions the code performs are
+   the exactness hypotheses (a row with a fractional new index is removed by the code).  The relabelled operation acts
+   on the relabelled index exactly as the old operation acted on the old one (same equivalences), with the same phase
+   shift modulo whole turns (same absences), and the inverse operator gives the old index back. *)
+Theorem C13_reindex_ops : forall X Xi g h h',
+  tran X = (0,0,0) -> tran Xi = (0,0,0) ->
+  mat_mul_raw (rot X) (rot Xi) = sI 576 ->
+  representable Xi g -> representable (combine' Xi g) X ->
+  apply_to_hkl_nodiv X h = scale_v3 24 h' ->
+  let g' := op_mul (combine' Xi g) X in
+  scale_v3 24 (apply_to_hkl_nodiv g' h') = apply_to_hkl_nodiv X (apply_to_hkl_nodiv g h) /\
+  (dot h' (tran g') - dot h (tran g)) mod 24 = 0 /\
+  apply_to_hkl_nodiv Xi h' = scale_v3 24 h.
+Proof. exact reindex_ops. Qed.
+Print Assumptions C13_reindex_ops.
+
+(* an operation that fixes h (the condition in absences, centricity and epsilon) becomes one that fixes h' *)
+Theorem C13_reindex_fixed : forall A B, mat_mul_raw A B = sI 576 ->
+  forall G G', mat_mul_raw (mat_mul_raw B G) A = sM 576 G' ->
+  forall h h', vm h A = scale_v3 24 h' -> vm h G = scale_v3 24 h -> vm h' G' = scale_v3 24 h'.
+Proof. exact reindex_fixed. Qed.
+Print Assumptions C13_reindex_fixed.
+
+Theorem C13_reindex_example :
+  tran ex_X = (0,0,0) /\ tran ex_Xi = (0,0,0) /\ mat_mul_raw (rot ex_X) (rot ex_Xi) = sI 576 /\
+  representable ex_Xi ex_g /\ representable (combine' ex_Xi ex_g) ex_X /\
+  apply_to_hkl_nodiv ex_X (0,1,0) = scale_v3 24 (0,0,1) /\
+  tran (op_mul (combine' ex_Xi ex_g) ex_X) = (0,0,12) /\ dot (0,1,0) (tran ex_g) = 12.
+Proof. exact reindex_hypotheses_hold. Qed.
+Print Assumptions C13_reindex_example.
